@@ -56,10 +56,60 @@ class Dim:
 
     __int__ = __index__
 
+    factors = None
+    inner = 1
+
+    def _facs(self):
+        return (self,)
+
     def __mul__(self, o):
+        return cdim(self._facs() + (o._facs() if isinstance(o, Dim) else (int(o),)))
+
+    def __rmul__(self, o):
+        return cdim(((int(o),) if not isinstance(o, Dim) else o._facs()) + self._facs())
+
+    def _no(self, o):
         raise Unsupported(f"arithmetic on the symbolic extent {self.name}")
 
-    __rmul__ = __add__ = __radd__ = __sub__ = __rsub__ = __mul__
+    __add__ = __radd__ = __sub__ = __rsub__ = _no
+
+
+class CDim(Dim):
+    """extent of a flattened axis: the product, in C order, of symbolic extents and numbers, e.g. Ne*nPe*2.  The index runs over (e, n, k); the representative data carries
+    the numerical factors (here nPe*2 entries), generic in the symbolic ones"""
+    __slots__ = ("factors", "inner")
+
+    def __init__(self, factors):
+        self.factors = tuple(factors)
+        self.inner = 1
+        for f in self.factors:
+            if not isinstance(f, Dim):
+                self.inner *= int(f)
+        Dim.__init__(self, "*".join(str(f) for f in self.factors))
+
+    def _facs(self):
+        return self.factors
+
+    def syms(self):
+        return [f for f in self.factors if isinstance(f, Dim)]
+
+
+_CDIMS: dict = {}
+
+
+def cdim(factors):
+    factors = tuple(f for f in factors if isinstance(f, Dim) or int(f) != 1)
+    if not any(isinstance(f, Dim) for f in factors):
+        n = 1
+        for f in factors:
+            n *= int(f)
+        return n
+    if len(factors) == 1:
+        return factors[0]
+    key = tuple(id(f) if isinstance(f, Dim) else int(f) for f in factors)
+    if key not in _CDIMS:
+        _CDIMS[key] = CDim(factors)
+    return _CDIMS[key]
 
 
 NE, NPG = Dim("Ne"), Dim("nPg")
@@ -69,12 +119,19 @@ def _is_sym(d):
     return isinstance(d, Dim)
 
 
+def _syms_of(d):
+    """the plain symbolic extents inside an extent"""
+    if isinstance(d, CDim):
+        return d.syms()
+    return [d] if isinstance(d, Dim) else []
+
+
 def _conc(shape):
-    return tuple(1 if _is_sym(d) else int(d) for d in shape)
+    return tuple((d.inner if _is_sym(d) else int(d)) for d in shape)
 
 
 def _check_shape(shape):
-    syms = [d for d in shape if _is_sym(d)]
+    syms = [x for d in shape for x in _syms_of(d)]
     if len(set(map(id, syms))) != len(syms):
         raise Unsupported(f"shape {shape} carries the same symbolic extent twice")
     return tuple(shape)
@@ -174,9 +231,9 @@ class Space:
         self.decls = {k: _check_shape(tuple(v)) for k, v in decls.items()}
         names, self._deps, self._index = [], {}, {}
         for nm, shape in self.decls.items():
-            dep = frozenset(d for d in shape if _is_sym(d))
+            dep = frozenset(x for d in shape for x in _syms_of(d))
             for idx in itertools.product(*[range(s) for s in _conc(shape)]):
-                g = nm + "".join(f"_{i}" for i, d in zip(idx, shape) if not _is_sym(d))
+                g = nm + "".join(f"_{i}" for i, d in zip(idx, shape) if not (_is_sym(d) and d.inner == 1))
                 names.append(g)
                 self._deps[g] = dep
                 self._index[(nm, idx)] = g
@@ -367,8 +424,18 @@ class GA:
             return GFe(self.sp, self.shape, self.data)
         raise Unsupported(f"view as {cls}")
 
+    def ravel(self, *a, **k):
+        facs = []
+        for d in self.shape:
+            facs += list(d._facs()) if isinstance(d, Dim) else [int(d)]
+        flat = cdim(facs) if facs else 1
+        _check_shape((flat,))
+        return GA(self.sp, (flat,), self.data.reshape(-1))
+
+    flatten = ravel
+
     def astype(self, dt, *a, **k):
-        if dt in (float, object, _np.float64, "float64", "float"):
+        if dt in (float, object, int, _np.float64, _np.int64, "float64", "float", "int"):
             return self.copy()
         raise Unsupported(f"astype({dt}) on exact generic values")
 
@@ -592,7 +659,7 @@ def _reduce_sum(a: GA, axis, keepdims=False, keep_fe=None):
         axes = tuple(int(x) % a.ndim for x in axis)
     else:
         axes = (int(axis) % a.ndim,)
-    sym = [a.shape[k] for k in axes if _is_sym(a.shape[k])]
+    sym = [x for k in axes for x in _syms_of(a.shape[k])]
     data = a.data
     if sym:
         f = _np.vectorize(lambda v: _summed(a.sp, v, sym), otypes=[object])
@@ -853,7 +920,7 @@ def einsum(subs, *ops, **kw):
     letters = list(out) + [c for c in cur_s if c not in out]
     prod = cur_d.transpose([cur_s.index(c) for c in letters]) if cur_s else cur_d
     summed = [c for c in letters if c not in out]
-    sym_summed = [dims[c] for c in summed if _is_sym(dims[c])]
+    sym_summed = [x for c in summed for x in _syms_of(dims[c])]
     tgt = tuple(_conc((dims[c],))[0] for c in letters)
     prod = _np.broadcast_to(prod, tgt)
     if sym_summed:
@@ -962,6 +1029,21 @@ class NP:
 
     def copy(self, a):
         return self.sp.lift(a).copy()
+
+    def concatenate(self, seq, axis=0, **k):
+        def empty(a):
+            if isinstance(a, _np.ndarray):
+                return a.size == 0
+            return isinstance(a, GA) and any((not _is_sym(d)) and int(d) == 0 for d in a.shape)
+        parts = [a for a in seq if not empty(a)]
+        if len(parts) == 1 and isinstance(parts[0], GA) and parts[0].ndim == 1:
+            return parts[0].copy()
+        if all(isinstance(a, _np.ndarray) for a in parts):
+            return _np.concatenate(parts, axis=axis) if parts else _np.concatenate(list(seq), axis=axis)
+        raise Unsupported("concatenation of several arrays of symbolic extent")
+
+    def ravel(self, a, **k):
+        return self.sp.lift(a).ravel()
 
     def isscalar(self, a):
         return isinstance(a, (int, float, Fraction, X))
